@@ -177,6 +177,10 @@ mod verif_kani {
     }
 
     #[kani::proof]
+    #[kani::unwind(5)]
+    fn write_all_vectored_scripted_1() { check_scripted::<1>() }
+
+    #[kani::proof]
     #[kani::unwind(6)]
     fn write_all_vectored_scripted_2() { check_scripted::<2>() }
 
